@@ -13,7 +13,13 @@ INITIAL_MISS = {'C01-1': 'provider function _increment_parent_descriptor_version
                 'C17-2': 'only byte flips, no truncations of encoded bodies were tried',
                 'C18-1': 'reported as undecided (exit 2): the decimal enumeration crashed on the unreadable output instead of reporting it',
                 'C19-2': 'contract fixed cyphers=None instead of leaving the optional arguments symbolic',
-                'C20-2': 'version 0 was neither stored nor requested in the bounded text-filter check'}
+                'C20-2': 'version 0 was neither stored nor requested in the bounded text-filter check',
+                'C03-4': 'MultiStateEntity.update() was not under contract (only the entity getters were)',
+                'C04-3': 'reported as undecided (exit 2): the changed function uses a dict comprehension, which the executor does not model outside structural checks; no history updated a context descriptor owning two states',
+                'C05-3': 'C05 trusted the converter lemma proved under C18 without re-checking it',
+                'C07-3': 'only the branch of _update_corresponding_state with the state inside the transaction was under contract; the copy branch was not',
+                'C08-4': 'on_renew_request was only checked for unknown identifiers, not for the content / order of the answer',
+                'C09-3': 'reported as undecided (exit 2): obligations were attached to the notification calls, so an iteration that never reaches the Fail report produced no obligation'}
 for d in sorted(os.listdir(ROOT)):
     p = os.path.join(ROOT, d)
     if not os.path.isdir(p):
